@@ -134,9 +134,14 @@ type run struct {
 	answers  map[string]execAnswer // "<rid>/<eid>" -> scripted executor answer
 	fetchErr map[string]int        // data hash -> consecutive failed Data queries
 	lastFail map[string]bool       // query key -> previous attempt failed (request / data-source-hash queries)
+	fmu      sync.Mutex // guards the fakes' bookkeeping maps in the free-running pass
+	mu       sync.Mutex // guards msgs in the free-running (-race) pass; uncontended under the cooperative scheduler
 	msgs     []*oracletypes.MsgReportData
 	cacheDir string
 }
+
+// lastRun is the state of the most recently created execution (used by the free-running pass only).
+var lastRun *run
 
 type fakeRPC struct {
 	rpcclient.Client
@@ -150,22 +155,20 @@ func (f fakeRPC) ABCIQuery(_ context.Context, path string, data cmtbytes.HexByte
 	}
 	key := path + "|" + string(data)
 	fail := false
+	f.r.fmu.Lock()
+	prevFailed := f.r.lastFail[key]
+	f.r.fmu.Unlock()
 	// a fault is offered on every Data query; on request / data-source-hash queries only when the previous
 	// attempt of the same query succeeded or never happened (persistent failure of those makes the
 	// request unknowable to the daemon and is outside the property's alphabet)
-	if kind == "data" || !f.r.lastFail[key] {
+	if kind == "data" || !prevFailed {
 		fail = vsched.Env("rpc-"+kind, 2) == 1
 	}
+	f.r.fmu.Lock()
+	f.r.lastFail[key] = fail
+	f.r.fmu.Unlock()
 	if fail {
-		f.r.lastFail[key] = true
-		if kind == "data" {
-			f.r.fetchErr[key]++
-		}
 		return nil, fmt.Errorf("injected rpc failure")
-	}
-	f.r.lastFail[key] = false
-	if kind == "data" {
-		f.r.fetchErr[key] = -1000 // fetched
 	}
 	res, err := f.r.c.w.App.Query(context.Background(), &abci.RequestQuery{Path: path, Data: data})
 	if err != nil {
@@ -180,7 +183,9 @@ func (e fakeExec) Exec(exe []byte, arg string, env interface{}) (executor.ExecRe
 	m := env.(map[string]interface{})
 	key := fmt.Sprint(m["BAND_REQUEST_ID"], "/", m["BAND_EXTERNAL_ID"])
 	a := execAnswer(vsched.Env("executor", 3))
+	e.r.fmu.Lock()
 	e.r.answers[key] = a
+	e.r.fmu.Unlock()
 	switch a {
 	case execOK:
 		return executor.ExecResult{Output: []byte("ok-" + key), Code: 0, Version: "v1"}, nil
@@ -204,6 +209,7 @@ func scenario(name string, reqNames []string, maxTry uint64) gosched.Scenario {
 	return gosched.Scenario{Name: name, New: func(worker int) (func(), func(*vsched.Sched) (string, []engine.Violation)) {
 		c := getChain(worker)
 		r := &run{c: c, maxTry: maxTry, answers: map[string]execAnswer{}, fetchErr: map[string]int{}, lastFail: map[string]bool{}}
+		lastRun = r
 		r.cacheDir = filepath.Join(os.Getenv("VERIF_BUILD"), "homes", fmt.Sprintf("h-%d-yoda-%d", os.Getpid(), atomic.AddInt64(&dirSeq, 1)))
 		if os.Getenv("VERIF_BUILD") == "" {
 			r.cacheDir = filepath.Join("/verif/build/homes", filepath.Base(r.cacheDir))
@@ -216,7 +222,9 @@ func scenario(name string, reqNames []string, maxTry uint64) gosched.Scenario {
 				vsched.SetDaemon()
 				for {
 					m := vsched.Recv(pending)
+					r.mu.Lock()
 					r.msgs = append(r.msgs, m.VerifMsg())
+					r.mu.Unlock()
 				}
 			})
 			for _, n := range reqNames {
@@ -382,4 +390,45 @@ func init() {
 
 func cmtHeader() cmtproto.Header {
 	return cmtproto.Header{ChainID: engine.ChainID, Height: 3, Time: engine.GenesisTime.Add(6 * time.Second)}
+}
+
+// RaceBodies runs the scenario bodies free-running (real goroutines and channels, default environment
+// answers, no scheduler) `rounds` times.  It is meant for a binary built with -race: the race detector then
+// reports unsynchronised accesses between scheduling points, which the cooperative scheduler cannot see
+// (its hand-offs are happens-before edges).  Waiting for the reports is bounded; a time-out is counted as
+// "incomplete", never as a failure.
+func RaceBodies(rounds int) (ok, incomplete int, problems []string) {
+	sets := [][]string{{"A"}, {"B", "C"}, {"D", "A"}, {"A", "B", "D", "E"}}
+	for round := 0; round < rounds; round++ {
+		for _, reqs := range sets {
+			c := getChain(0)
+			body, check := scenario("race", reqs, 3).New(0)
+			r := lastRun
+			expected := 0
+			for _, n := range reqs {
+				if c.mine[c.reqs[n]] {
+					expected++
+				}
+			}
+			body()
+			deadline := time.Now().Add(10 * time.Second)
+			count := func() int { r.mu.Lock(); defer r.mu.Unlock(); return len(r.msgs) }
+			for count() < expected && time.Now().Before(deadline) {
+				time.Sleep(time.Millisecond)
+			}
+			if count() < expected {
+				incomplete++
+				continue
+			}
+			time.Sleep(5 * time.Millisecond) // let a surplus report (if any) arrive
+			r.mu.Lock()
+			_, viol := check(&vsched.Sched{})
+			r.mu.Unlock()
+			for _, v := range viol {
+				problems = append(problems, v.Fingerprint+": "+v.Detail)
+			}
+			ok++
+		}
+	}
+	return ok, incomplete, problems
 }
